@@ -134,7 +134,7 @@ theorem C17_headline_build_rejects_bad_port (e : Env) (a : BuildArgs)
       (qargTruthy a.query = true → ∃ r, getStrQuery e.b a.query = .ok r) →   -- a bad `query=` is reported first
       (∃ sc, lowerAny e a.scheme = .ok sc) →   -- the oracle answers `scheme.lower()` (always for ASCII)
       (isAscii a.authority = false →           -- the oracle answers the NFKC request (none for ASCII)
-        ∃ nn, e.o.nfkc (a.authority.filter (fun c => c ≠ 64 ∧ c ≠ 58 ∧ c ≠ 35 ∧ c ≠ 63)) = some nn) →
+        ∃ nn, e.o.nfkc (a.authority.filter (fun c => c ≠ 64 ∧ c ≠ 58 ∧ c ≠ 35 ∧ c ≠ 63 ∧ c ≠ 91 ∧ c ≠ 93)) = some nn) →
       build e a = .error .valueError) :=
   C17_build_rejects_bad_port e a henc hne hbad
 
